@@ -26,6 +26,9 @@ def main(argv):
         if prop in LEDGER:
             import ledger
             return ledger.replay(prop, rp) if rp else ledger.check(prop, tier)
+        if prop == "C05":
+            import spice
+            return spice.replay(prop, rp) if rp else spice.check(prop, tier)
         if prop == "C08":
             import locks
             return locks.replay(prop, rp) if rp else locks.check(prop, tier)
